@@ -94,14 +94,19 @@ def gen_config_programs(tier: str, rnd: random.Random) -> list[dict]:
     for tag in dt_tags(tier):
         for refused, silent in (((), ()), (("meter",), ()), ((), ("meter",))):
             progs.append(cfg_program("DT", tag, 0, refused, (None, None, None), rnd, silent_names=silent))
-    # ES: one configuration, three calls
-    sim = {"aa55": {"info": list(es_info("95048ESU000W0000"))}}
-    calls = [{"api": "read_device_info"}]
-    for _ in range(3):
-        calls.append({"sim": {"aa55": {"runtime": [rnd.randrange(256) for _ in range(149)]}}})
-        calls.append({"api": "read_runtime_data", "span": {"decode": False}})
-        calls.append({"api": "table:sensors"})
-    progs.append({"inv": [{"family": "ES", "sim": sim, "retries": 0}], "calls": calls})
+    # ES: every model tag of the family x firmware (arm version below / at 14 decides the eco-mode generation), three calls
+    from goodwe import model as M
+    es_tags = list(M.ES_MODEL_TAGS)
+    fws = ["1414B", "0909A"] if quick else ["1414B", "0909A", "1313C", "1919D", "0000 "]
+    for tag in es_tags:
+        for fw in fws:
+            sim = {"aa55": {"info": list(es_info("95048" + tag + "000W0000", fw))}}
+            calls = [{"api": "read_device_info"}, {"api": "table:sensors"}]
+            for _ in range(3):
+                calls.append({"sim": {"aa55": {"runtime": [rnd.randrange(256) for _ in range(149)]}}})
+                calls.append({"api": "read_runtime_data", "span": {"decode": False, "detail": {"tag": tag, "fw": fw}}})
+                calls.append({"api": "table:sensors"})
+            progs.append({"inv": [{"family": "ES", "sim": sim, "retries": 0}], "calls": calls})
     return progs
 
 
@@ -197,8 +202,43 @@ def expand_hidden_settings(prog: dict) -> dict:
     return out
 
 
+def expand_writes_like_reads(prog: dict) -> dict:
+    """WRITESLIKEREADS -> one valid write_setting('modbus-R', N) for every read request (register R, count N) that the calls
+    after the marker transmit on a fresh object: a history in which every later read has an earlier write with the same two
+    numbers in the same places."""
+    if not any(c.get("api") == "WRITESLIKEREADS" for c in prog["calls"]):
+        return prog
+    from .inv_driver import run_program
+    from . import frames as F
+    k = [i for i, c in enumerate(prog["calls"]) if c.get("api") == "WRITESLIKEREADS"][0]
+    dry = dict(prog)
+    dry["calls"] = prog["calls"][:k] + prog["calls"][k + 1:]
+    tr = run_program(dry)
+    fr = "tcp" if prog["inv"][0].get("port", 8899) == 502 else "rtu"
+    reads = []
+    for ev in tr["ev"]:
+        if ev["e"] != "SEND":
+            continue
+        b = bytes(ev["data"])
+        if b[:4] == b"\xaa\x55\xc0\x7f":
+            p = F.parse_request("aa55", b)
+            if p and p["ctl"] == 1 and p["fn"] == 9 and len(p["payload"]) == 3:
+                reads.append((int.from_bytes(p["payload"][:2], "big"), p["payload"][2]))
+        else:
+            p = F.parse_request(fr, b)
+            if p and p["fn"] == 3:
+                reads.append((p["reg"], p["n"]))
+    calls = list(prog["calls"][:k])
+    for reg, n in dict.fromkeys(reads):
+        calls.append({"api": "write_setting", "args": [f"modbus-{reg}", n], "span": {"decode": False}})
+    calls += prog["calls"][k + 1:]
+    out = dict(prog)
+    out["calls"] = calls
+    return out
+
+
 def run_readonly_program(prog: dict) -> dict:
-    return run_program_values(expand_hidden_settings(prog))
+    return run_program_values(expand_writes_like_reads(expand_hidden_settings(prog)))
 
 
 def gen_readonly_programs(tier: str, rnd: random.Random) -> list[dict]:
@@ -225,6 +265,10 @@ def gen_readonly_programs(tier: str, rnd: random.Random) -> list[dict]:
             ro_calls.append({"api": "read_setting", "args": [sid], "span": {"decode": False, "pair": False}})
         ro_calls.append({"api": "read_setting", "args": ["modbus-47000"], "span": {"decode": False, "pair": False}})
         progs.append({"inv": [{"family": fam, "port": port, "sim": sim, "retries": 0}], "calls": ro_calls})
+        # the same monitoring calls after a history of valid writes whose (register, value) are the (register, count) of the reads
+        det = {"span": {"decode": False, "pair": False, "detail": {"state": "after writes that look like the reads"}}}
+        progs.append({"inv": [{"family": fam, "port": port, "sim": sim, "retries": 0}],
+                      "calls": [ro_calls[0], {"api": "WRITESLIKEREADS"}] + [dict(c, **det) for c in ro_calls[1:]]})
         # setters
         calls = [{"api": "read_device_info"}]
         for x in ints:
